@@ -52,7 +52,7 @@ theorem tokSendPair_withdraw_ok {w w' : World} {t h p a : Nat} {P : PairSt} {out
   by_cases ht : t = P.lp
   · rw [if_neg (fun hh => hh ht)] at hrc
     simp only [bind_ok_iff, pure_ok_iff, Prod.mk.injEq] at hrc
-    obtain ⟨⟨w1, y0, y1⟩, hpw, rfl, rfl⟩ := hrc
+    obtain ⟨_, _, ⟨w1, y0, y1⟩, hpw, rfl, rfl⟩ := hrc
     exact ⟨ht, w0, y0, y1, rfl, htr, hpw⟩
   · rw [if_pos ht] at hrc; cases hrc
 
@@ -185,7 +185,7 @@ theorem payout_intro {w : World} {src : Nat} {a : Asset} {amt : Nat} (dst : Nat)
 /-! ### C20: a legal withdrawal succeeds -/
 
 theorem withdraw_live {w : World} {p h a : Nat} {P : PairSt}
-    (hP : w.pair p = some P) (hhp : h ≠ p)
+    (hP : w.pair p = some P) (hhp : h ≠ p) (hvalid : w.badAddr h = false)
     (hne : P.a0 ≠ P.a1) (hl0 : P.a0 ≠ .token P.lp) (hl1 : P.a1 ≠ .token P.lp)
     (hlp : (w.tok P.lp).isSome)
     (ht0 : ∀ t, P.a0 = .token t → (w.tok t).isSome) (ht1 : ∀ t, P.a1 = .token t → (w.tok t).isSome)
@@ -252,6 +252,8 @@ theorem withdraw_live {w : World} {p h a : Nat} {P : PairSt}
   unfold pairReceive
   rw [hpair0]
   simp only [hP, ne_eq, not_true_eq_false, ↓reduceIte]
+  have hv0 : validAddr w0 h = .ok () := validAddr_ok_iff.mpr (by rw [(tokTransfer_same htr).1.badAddr]; exact hvalid)
+  rw [hv0, ok_bind]
   unfold pairWithdraw
   simp only [q0, q1, qS, hratio, hm0, hm1, hp0, hp1, hb, ok_bind]
   rfl
@@ -344,7 +346,7 @@ theorem pairProvide_ok {w w' : World} {p : Nat} {P : PairSt} {s : Nat} {funds : 
   · rw [if_pos hz] at hrest; cases hrest
   · rw [if_neg hz] at hrest
     simp only [bind_ok_iff, pure_ok_iff, Prod.mk.injEq] at hrest
-    obtain ⟨share', hsh1, w1, hw1, w2, hw2, w3, hw3, w4, hw4, rfl, rfl⟩ := hrest
+    obtain ⟨share', hsh1, w1, hw1, w2, hw2, w3, hw3, _, _, w4, hw4, rfl, rfl⟩ := hrest
     refine ⟨hs0, hs1, d0, d1, share, w1, w2, w3, select_ok hd0, select_ok hd1, hsh', hz, ?_, hw1, hw2, hw4⟩
     by_cases hS0 : supply w P.lp = 0
     · rw [if_pos hS0] at hsh1 hw3
@@ -742,7 +744,7 @@ theorem pairReceive_swap_ok {w : World} {p t f amount : Nat} {offer : Asset} {am
     split at h
     · cases h
     simp only [bind_ok_iff, pure_ok_iff] at h
-    obtain ⟨⟨w1, o⟩, hsw, rfl⟩ := h
+    obtain ⟨_, _, ⟨w1, o⟩, hsw, rfl⟩ := h
     exact ⟨P, o, rfl, hsw⟩
 
 theorem good_pairReceive {w : World} {p t f amount : Nat} {hk : Hook} {r : World × Out} (hp : ok p)
@@ -760,7 +762,7 @@ theorem good_pairReceive {w : World} {p t f amount : Nat} {hk : Hook} {r : World
       split at h
       · cases h
       simp only [bind_ok_iff, pure_ok_iff] at h
-      obtain ⟨⟨w1, y0, y1⟩, hpw, rfl⟩ := h
+      obtain ⟨_, _, ⟨w1, y0, y1⟩, hpw, rfl⟩ := h
       exact good_pairWithdraw hp hpw
   | routerOps ops mn tt =>
     unfold pairReceive at h
@@ -823,7 +825,7 @@ theorem good_pairExec {w : World} {s p : Nat} {funds : List (Nat × Nat)} {m : P
       | token x => simp at h
       | native d =>
         simp only [bind_ok_iff, pure_ok_iff] at h
-        obtain ⟨⟨w1, o⟩, h1, rfl⟩ := h
+        obtain ⟨_, _, ⟨w1, o⟩, h1, rfl⟩ := h
         exact (sgood_pairSwap hp h1).2
     | receive f amount hk => exact good_pairReceive hp h
     | updateDecimals d da db =>
@@ -845,7 +847,7 @@ theorem sgood_pairExec_swap {w : World} {s p : Nat} {funds : List (Nat × Nat)} 
     | token x => simp at h
     | native d =>
       simp only [bind_ok_iff, pure_ok_iff] at h
-      obtain ⟨⟨w1, o⟩, h1, rfl⟩ := h
+      obtain ⟨_, _, ⟨w1, o⟩, h1, rfl⟩ := h
       obtain ⟨s2, g2⟩ := sgood_pairSwap (hpairs p (by simp [hP])) h1
       exact ⟨(attach_same h0).1.trans s2, (good_attach h0).trans g2⟩
 
@@ -898,10 +900,8 @@ theorem good_routerSwapOps {name : Asset → String} {w w' : World} {sender : Na
 theorem good_routerReceive {name : Asset → String} {w w' : World} {from_ : Nat} {hk : Hook}
     (hr : ok w.router) (hpairs : ∀ q, (w.pair q).isSome → ok q)
     (h : routerReceive name w from_ hk = .ok w') : Good ok w w' := by
-  unfold routerReceive at h
-  split at h
-  · exact good_routerSwapOps hr hpairs h
-  · cases h
+  obtain ⟨ops, mn, dst, rfl, _, _, h⟩ := routerReceive_ok h
+  exact good_routerSwapOps hr hpairs h
 
 theorem good_routerExec {name : Asset → String} {w w' : World} {sender : Nat} {funds : List (Nat × Nat)}
     {m : RouterMsg} (hr : ok w.router) (hpairs : ∀ q, (w.pair q).isSome → ok q)
@@ -914,11 +914,17 @@ theorem good_routerExec {name : Asset → String} {w w' : World} {sender : Nat} 
   have hp0 : ∀ q, (w0.pair q).isSome → ok q := by intro q; rw [s0.pair]; exact hpairs q
   refine (good_attach h0).trans ?_
   cases m with
-  | swapOps ops mn tt => exact good_routerSwapOps hr0 hp0 h
-  | swapOp o a tt => exact (sgood_routerHop hr0 hp0 h).2
+  | swapOps ops mn tt =>
+    simp only [bind_ok_iff] at h
+    obtain ⟨_, _, h⟩ := h
+    exact good_routerSwapOps hr0 hp0 h
+  | swapOp o a tt =>
+    simp only [bind_ok_iff] at h
+    obtain ⟨_, _, h⟩ := h
+    exact (sgood_routerHop hr0 hp0 h).2
   | assertMin a prev mn rcv =>
     simp only [bind_ok_iff, pure_ok_iff] at h
-    obtain ⟨_, _, rfl⟩ := h
+    obtain ⟨_, _, _, _, rfl⟩ := h
     exact Good.refl _ _
   | receive from_ amount hk => exact good_routerReceive hr0 hp0 h
 
@@ -1035,6 +1041,8 @@ theorem good_facExec {w w' : World} {s : Nat} {funds : List (Nat × Nat)} {m : F
   | updateConfig o tc pc =>
     have h : facUpdateConfig w0 s o tc pc = .ok w' := h
     unfold facUpdateConfig at h
+    split at h
+    · cases h
     split at h
     · cases h
     injection h with h
